@@ -5,7 +5,7 @@
      PEND O                         pending operation := KeyValueStore::open      -> "CALLS m:call ; m:call ..."
      PEND W k=v,k=~,...             pending := write batch                        -> same
      PEND F                         pending := memtable flush                     -> same (+ " | FLAG 0" when it ends in duplicate-sst)
-     PEND C id,id | e,e ; e,e       pending := compaction, inputs by model id, outputs by entries
+     PEND C gc|merge id,id | e,e ; e,e   pending := compaction (garbage collection / merge), inputs by model id, outputs by entries
      Q k a|b                        crash before call k of the pending operation under model a/b, then reopen
                                     -> "OPEN ok=1 err=0 ents=e,e,..."
      QQ k a|b k2 a|b                the same, then crash before call k2 of THAT recovery, then reopen
@@ -90,7 +90,7 @@ let show_call = function
   | CLink (a, b) -> "link " ^ show_name a ^ " " ^ show_name b
   | CUnlink f -> "unlink " ^ show_name f
   | CRename (a, b) -> "rename " ^ show_name a ^ " " ^ show_name b
-let show_mode = function Must -> "M" | Ignore -> "I" | Exist -> "E" | Defer _ -> "D"
+let show_mode = function Must -> "M" | Ignore -> "I" | Retire -> "R" | Exist -> "E" | Defer _ -> "D"
 let show_prog (p : prog) : string =
   String.concat " ; " (List.map (fun (c, m) -> show_mode m ^ ":" ^ show_call c) p)
 
@@ -127,12 +127,13 @@ let () =
                   | _ -> failwith "bad kv") (split ',' b) in
               pend := POp (OpWrite kvs); let (p, ok) = prog_of () in "CALLS " ^ show_prog p
           | ["PEND"; "F"] -> pend := POp OpFlush; let (p, ok) = prog_of () in "CALLS " ^ show_prog p ^ (if ok then "" else " | FLAG 0")
-          | "PEND" :: "C" :: rest ->
+          | "PEND" :: "C" :: gcflag :: rest ->
+              let gc = (gcflag = "gc") in
               let r = String.concat " " rest in
               let (a, b) = match String.split_on_char '|' r with [a; b] -> (a, b) | [a] -> (a, "") | _ -> failwith "bad C" in
               let ins = List.map (fun i -> Hashtbl.find sst_of_id (int_of_string (String.trim i))) (split ',' (String.trim a)) in
               let outs = List.map (fun f -> List.map parse_entry (split ',' (String.trim f))) (split ';' b) in
-              pend := POp (OpCompact (ins, outs)); let (p, ok) = prog_of () in "CALLS " ^ show_prog p
+              pend := POp (OpCompact (gc, ins, outs)); let (p, ok) = prog_of () in "CALLS " ^ show_prog p
           | ["Q"; k; m] ->
               let (p, _) = prog_of () in
               let st = prefix_state p (nat_of_int (int_of_string k)) !s in
